@@ -45,6 +45,10 @@ type c01Case struct {
 	// optional second operation before the run (Op2 = index+1, 0 = none)
 	Op2  int `json:"op2,omitempty"`
 	Ent2 int `json:"ent2,omitempty"`
+	// optional write fault in the run after the history: the FaultK-th write (FaultK-1) fails with FaultKind
+	// (simfs.FaultErrNoWrite / FaultErrPrefix). A run that reports success must still leave a verifying chain.
+	FaultK    int `json:"faultK,omitempty"`
+	FaultKind int `json:"faultKind,omitempty"`
 }
 
 func acyclic(parent []int) bool {
@@ -128,6 +132,16 @@ func c01Enumerate(tier string, yield func(any)) {
 		for ent := 0; ent < 3; ent++ {
 			for _, prof := range []bool{false, true} {
 				yield(&c01Case{Kind: "history", Op: op, Ent: ent, Profile: prof})
+			}
+		}
+	}
+	// a write error in the run after the operation: whatever the run reports, success means a verifying chain on disk
+	for op := range c01HistoryOps {
+		for ent := 0; ent < 3; ent++ {
+			for k := 1; k <= 3; k++ {
+				for _, kind := range []int{simfs.FaultErrNoWrite, simfs.FaultErrPrefix} {
+					yield(&c01Case{Kind: "history", Op: op, Ent: ent, Profile: ent%2 == 0, FaultK: k, FaultKind: kind})
+				}
 			}
 		}
 	}
@@ -222,9 +236,13 @@ func c01History(x *engine.Ctx, c *c01Case) {
 		}
 	}
 	g2 := &GenResult{W: w, Before: w.Clone(), RunStart: g.RunStart}
-	g2.Res = drive.Run(w, strat, nil)
+	var faults []simfs.Fault
+	if c.FaultK > 0 {
+		faults = []simfs.Fault{{K: c.FaultK - 1, Kind: c.FaultKind, Boundary: 2}}
+	}
+	g2.Res = drive.Run(w, strat, faults)
 	g2.RunEnd = g.RunEnd + 5
-	x.Nontrivial(fmt.Sprintf("history %d %d %d %d %v", c.Op, c.Ent, c.Op2, c.Ent2, c.Profile))
+	x.Nontrivial(fmt.Sprintf("history %d %d %d %d %v %d %d", c.Op, c.Ent, c.Op2, c.Ent2, c.Profile, c.FaultK, c.FaultKind))
 	if g2.Res.Panic != "" {
 		x.Violation("C01/panic/"+g2.Res.PanicSite, g2.Res.Panic)
 		return
@@ -236,6 +254,9 @@ func c01History(x *engine.Ctx, c *c01Case) {
 	opName := c01HistoryOps[c.Op]
 	if c.Op2 > 0 {
 		opName += " then " + c01HistoryOps[c.Op2-1]
+	}
+	if c.FaultK > 0 {
+		opName += " write-error-in-the-run"
 	}
 	x.Outcome("history " + opName)
 	for _, e := range d.Certs {
@@ -619,7 +640,7 @@ func init() {
 	register(&engine.Check{
 		ID:          "C01",
 		Level:       "exploration",
-		Rule:        "(a) every rooted forest on <=3 (quick) / <=4 (thorough) entities x 3 alias/directory layouts x with/without a profile adding subjectKeyIdentifier+authorityKeyIdentifier hash; (b) issuer key algorithm (14) x subject key algorithm (6 representatives quick / 14 thorough) x signature algorithm (8 + omitted) two-tier worlds with fixture keys, the 14 x 9 self-signed roots, and a three-tier chain per issuer kind x 9; (c) 60 one-operation and all 1800 ordered two-operation histories on a settled 3-tier chain (add a child under the entity / delete artifact / replace by an old key-only file / strip certificate / edit subject / strip key / change key algorithm / issuer key replaced by a request + child edited / issuer key stripped + child edited + generate-changed only / issuer key stripped + child artifact deleted, on each entity, with and without key-id profile) followed by a default run, after which every certificate must verify under its issuer's current certificate; (d) issuer artifact origin {earlier gopki run, foreign certificate with PrintableString / UTF8String non-ASCII / UTF8String for a printable value / IA5String e-mail / multi-valued RDN / TeletexString / PrintableString with & or * / BMPString / NumericString / empty value / mixed string types in one RDN}. Oracle per written certificate: signature verifies with the algorithm its signatureAlgorithm names under the SPKI of the issuer's current certificate file, issuer DN bytes = that certificate's subject DN bytes, hash key ids = SHA-1 of the respective key bits, child AKI = issuer SKI; misfit of algorithm and signing key => run fails and no certificate. non-trivial = distinct case executed",
+		Rule:        "(a) every rooted forest on <=3 (quick) / <=4 (thorough) entities x 3 alias/directory layouts x with/without a profile adding subjectKeyIdentifier+authorityKeyIdentifier hash; (b) issuer key algorithm (14) x subject key algorithm (6 representatives quick / 14 thorough) x signature algorithm (8 + omitted) two-tier worlds with fixture keys, the 14 x 9 self-signed roots, and a three-tier chain per issuer kind x 9; (c) 60 one-operation histories (each also with a write error at the 1st/2nd/3rd write of the following run, after which a run that reports success must still leave a verifying chain) and all 1800 ordered two-operation histories on a settled 3-tier chain (add a child under the entity / delete artifact / replace by an old key-only file / strip certificate / edit subject / strip key / change key algorithm / issuer key replaced by a request + child edited / issuer key stripped + child edited + generate-changed only / issuer key stripped + child artifact deleted, on each entity, with and without key-id profile) followed by a default run, after which every certificate must verify under its issuer's current certificate; (d) issuer artifact origin {earlier gopki run, foreign certificate with PrintableString / UTF8String non-ASCII / UTF8String for a printable value / IA5String e-mail / multi-valued RDN / TeletexString / PrintableString with & or * / BMPString / NumericString / empty value / mixed string types in one RDN}. Oracle per written certificate: signature verifies with the algorithm its signatureAlgorithm names under the SPKI of the issuer's current certificate file, issuer DN bytes = that certificate's subject DN bytes, hash key ids = SHA-1 of the respective key bits, child AKI = issuer SKI; misfit of algorithm and signing key => run fails and no certificate. non-trivial = distinct case executed",
 		Bound:       map[string]string{"forest size": "quick<=3 thorough<=4"},
 		Assumptions: []string{"configurations with manipulations are C19's", "Go's crypto/ecdsa, crypto/rsa and the keybase brainpool curve parameters are trusted for verification"},
 		Budget:      budgets(quickBudget, thoroughBudget),
